@@ -13,7 +13,7 @@ import (
 
 type DNode struct {
 	Name    string   `json:"name"`
-	Kind    string   `json:"kind"` // src | proc | psrc
+	Kind    string   `json:"kind"` // src | proc | psrc | pcomb (ParamCombinator fed by the ParamSource PIn)
 	Ins     []string `json:"ins,omitempty"`    // upstream node names, one per in-port in0, in1
 	PIn     string   `json:"pin,omitempty"`    // upstream ParamSource node for param port `p` ("" = none, "@" = FromStr)
 	PVals   []string `json:"pvals,omitempty"`  // FromStr values / ParamSource values
@@ -50,6 +50,11 @@ func (g Dag) desc() (*Desc, map[string]string) {
 			d.Nodes = append(d.Nodes, Node{Name: n.Name, Kind: "filesource", Paths: paths})
 		case "psrc":
 			d.Nodes = append(d.Nodes, Node{Name: n.Name, Kind: "paramsource", Values: n.PVals})
+		case "pcomb":
+			// a ParamCombinator with one in-param-port `x` fed by the ParamSource n.PIn: a parameter
+			// producer that has an upstream process of its own
+			d.Nodes = append(d.Nodes, Node{Name: n.Name, Kind: "paramcombinator", Ports: []string{"x"}})
+			d.Edges = append(d.Edges, Edge{From: n.PIn + ".out", To: n.Name + ".x", Param: true})
 		case "proc":
 			ins := []string{}
 			for i := range n.Ins {
@@ -94,7 +99,11 @@ func (g Dag) desc() (*Desc, map[string]string) {
 				d.Edges = append(d.Edges, Edge{From: up + ".out", To: fmt.Sprintf("%s.in%d", n.Name, i)})
 			}
 			if n.PIn != "" && n.PIn != "@" {
-				d.Edges = append(d.Edges, Edge{From: n.PIn + ".out", To: n.Name + ".p", Param: true})
+				from := n.PIn + ".out"
+				if up := g.node(n.PIn); up != nil && up.Kind == "pcomb" {
+					from = n.PIn + ".x"
+				}
+				d.Edges = append(d.Edges, Edge{From: from, To: n.Name + ".p", Param: true})
 			}
 		}
 	}
@@ -133,6 +142,8 @@ func (g Dag) counts() map[string]int {
 			c[n.Name] = n.Items
 		case "psrc":
 			c[n.Name] = len(n.PVals)
+		case "pcomb":
+			c[n.Name] = c[n.PIn]
 		case "proc":
 			m := -1
 			for _, u := range n.Ins {
@@ -274,6 +285,9 @@ func genDag(r *Rng, allowNoOut bool, streamMax int) Dag {
 			vals = append(vals, fmt.Sprintf("v%d", k))
 		}
 		g.Nodes = append(g.Nodes, DNode{Name: "ps0", Kind: "psrc", PVals: vals})
+		if r.Intn(2) == 0 {
+			g.Nodes = append(g.Nodes, DNode{Name: "pc0", Kind: "pcomb", PIn: "ps0"})
+		}
 	}
 	np := 1 + r.Intn(5)
 	noOutUsed := false
@@ -302,6 +316,9 @@ func genDag(r *Rng, allowNoOut bool, streamMax int) Dag {
 		case 1:
 			if g.node("ps0") != nil {
 				n.PIn = "ps0"
+				if g.node("pc0") != nil && r.Intn(3) != 0 {
+					n.PIn = "pc0"
+				}
 			}
 		}
 		if allowNoOut && !noOutUsed && r.Intn(4) == 0 {
